@@ -18,6 +18,15 @@ import (
 
 const Root = "/verif"
 
+// outRoot is where evidence and replay files go: /verif, or $VERIF_ALT_OUT for runs against
+// a scratch tree (VERIF_REPO), which must not overwrite the evidence of /repo itself.
+func outRoot() string {
+	if d := os.Getenv("VERIF_ALT_OUT"); d != "" {
+		return d
+	}
+	return Root
+}
+
 type violation struct {
 	Sig    string
 	What   string
@@ -129,7 +138,7 @@ func (c *Check) finish() int {
 			continue
 		}
 		unlisted++
-		dir := filepath.Join(Root, "replays", c.ID)
+		dir := filepath.Join(outRoot(), "replays", c.ID)
 		os.MkdirAll(dir, 0o755)
 		h := sha1.Sum([]byte(v.Sig))
 		p := filepath.Join(dir, hex.EncodeToString(h[:6])+".json")
@@ -158,8 +167,8 @@ func (c *Check) finish() int {
 		ev["assumptions"] = []string{}
 	}
 	b, _ := json.MarshalIndent(ev, "", " ")
-	os.MkdirAll(filepath.Join(Root, "evidence"), 0o755)
-	if err := os.WriteFile(filepath.Join(Root, "evidence", c.ID+".json"), append(b, '\n'), 0o644); err != nil {
+	os.MkdirAll(filepath.Join(outRoot(), "evidence"), 0o755)
+	if err := os.WriteFile(filepath.Join(outRoot(), "evidence", c.ID+".json"), append(b, '\n'), 0o644); err != nil {
 		fmt.Fprintln(os.Stderr, "evidence write:", err)
 		return 2
 	}
